@@ -160,9 +160,15 @@ def choke_point_rules(prog, res: Result):
             # metaclass __new__ (class creation) or object.__new__(unit_cls) for units
             ok = s in ("super()", "object")
             if s == "object":
-                arg = src_of(nd.args[0]) if nd.args else ""
-                ok = "unit" in arg.lower()
-                why = f"raw object creation of {arg}"
+                # object.__new__(X): X must be the type's unit class (dataflow: X comes from `_unit_cls`), never a quantity class
+                arg = nd.args[0] if nd.args else None
+                srcs = {src_of(arg)} if arg is not None else set()
+                if isinstance(arg, ast.Name):
+                    for a2 in ast.walk(fi.node):
+                        if isinstance(a2, ast.Assign) and any(isinstance(t, ast.Name) and t.id == arg.id for t in a2.targets):
+                            srcs.add(src_of(a2.value))
+                ok = any("_unit_cls" in x or x in ("Unit", "Currency") for x in srcs)
+                why = f"raw object creation of {sorted(srcs)}"
         else:
             ok = False
             why = "raw instance creation outside the constructors"
@@ -189,13 +195,19 @@ def run(prog, tier) -> Result:
     ctor_cases(prog, cr)
     quantum_cases(prog, cr)
 
-    # R05.3b the class invariant "quantum => reference unit"
-    mnew = prog.method("QuantityMeta", "__new__")
-    asserts = [n for n in ast.walk(mnew.node) if isinstance(n, ast.Assert)]
-    ok = any("quantum is None" in src_of(a.test) and "ref_unit_symbol" in src_of(a.test) for a in asserts)
-    res.ob("R05.3b", "QuantityMeta.__new__", "quantum requires a reference unit", ok,
-           "no guard `quantum is None or ref_unit_symbol`", sig="quantum without reference unit accepted",
-           nontrivial=False)
+    # R05.3b the class invariant "quantum => reference unit": declaring a quantum without a reference unit is rejected
+    from ..declcases import base_types, create_class
+    from ..engine_a import run_body
+
+    def body_q(I, c):
+        base_types(c)
+        return create_class(prog, I, c, derived=False, ref_symbol=False, quantum=True)
+    outs = run_body(prog, body_q, max_depth=12)
+    res.paths += len(outs)
+    accepted = [o for o in outs if o.kind == "return"]
+    res.ob("R05.3b", "QuantityMeta.__new__", "quantum requires a reference unit", bool(outs) and not accepted,
+           f"{len(accepted)} of {len(outs)} paths accept a quantum without reference unit",
+           sig="quantum without reference unit accepted")
 
     # R05.4 rounded once: all multiplicative arms ...
     for rule, fi, label, setup, judge, kw in op_cases(prog, mode="rounding",
